@@ -448,3 +448,5 @@ func describeLines(res *result, names map[*font.Face]string) string {
 	}
 	return sb.String()
 }
+
+func shapingPolicy(p int) shaping.LineBreakPolicy { return shaping.LineBreakPolicy(p) }
